@@ -108,6 +108,11 @@ def build_data(spec, fw):
                         continue
                     v = 0.0
                 _set_ts(data.tdve[p["name"]].ts[pop], v)
+            if p.get("all_row"):   # one databook row "All" that applies to every population
+                tdve = data.tdve[p["name"]]
+                ts_all = tdve.ts[spec["pops"][0]]
+                tdve.ts.clear()
+                tdve.ts["All"] = ts_all
     for t in spec.get("transfers", []):
         tdc = next(x for x in data.transfers if x.code_name == t["name"])
         tdc.ts.clear()
